@@ -335,6 +335,9 @@ def plot_geo2(col, site, setup, t, out, rep):
         col.violation(f"{site}/displaced_points", f"{site}: displaced points {None if pts is None else pts.tolist()} expected {exp.tolist()}", rep)
 
 
+ARRAY_OPT2 = {"sensors lines", "sensors surfaces", "BG nodes", "BG lines", "BG surfaces"}
+
+
 def run_sites2(col, t, out):
     from pyoma2.functions import gen
     from pyoma2.setup import SingleSetup
@@ -343,6 +346,9 @@ def run_sites2(col, t, out):
     sites = ["gen.check_on_geo2"]
     if t["fault"] not in ("missing_names", "missing_points", "missing_mapping", "unknown_sheet"):
         sites.append("SingleSetup.def_geo2")
+        # documented ndarray forms of the optional line / surface / background tables (same prediction)
+        if t["fault"] == "none" and set(t["opt"]) & ARRAY_OPT2:
+            sites.append("SingleSetup.def_geo2[arrays]")
     for site in sites:
         d, ref_ind = tables2(t)
         col.count()
@@ -360,7 +366,7 @@ def run_sites2(col, t, out):
                 for key, arg in (("constraints", "cstr"), ("sensors sign", "sens_sign"), ("sensors lines", "sens_lines"), ("sensors surfaces", "sens_surf"),
                                  ("BG nodes", "bg_nodes"), ("BG lines", "bg_lines"), ("BG surfaces", "bg_surf")):
                     if key in d:
-                        kw[arg] = d[key]
+                        kw[arg] = d[key].to_numpy() if (site.endswith("[arrays]") and key in ARRAY_OPT2) else d[key]
                 setup.def_geo2(sens_names=d["sensors names"], pts_coord=d["points coordinates"], sens_map=d["mapping"], **kw)
                 geo = setup.geo2
             got = "Geometry"
